@@ -10,7 +10,13 @@ No interpretation happens here except:
   * `x.append(e)` as a statement, `x[i] = e`, `x[:k] = e` become the mutation statements of PyLite,
     which rebind x.  That is faithful only if no alias of the object is live, so they are admitted
     only when x provably (syntactically, see Fresh) holds a fresh list / array that has not escaped.
-  * the message expression of a `raise` is dropped (PyLite has one exception)."""
+  * the message expression of a `raise` is dropped (PyLite has one exception).
+  * `f(a, *e)` (one starred argument, last, no keywords) becomes ECallStar;
+  * a nested loop target `for a, (b, c) in it: body` becomes `for a, %1 in it: b, c = %1; body` with a
+    name %1 that is not a Python identifier (same bindings, same ValueError on a wrong length);
+  * `x[:, i] = e` becomes SSetCol (x fresh, as for the other mutations);
+  * numpy's dtype classes used as values (`np.float32`) become the opaque constant "<np.float32>";
+    what consumes them (`np.result_type`, `.astype`, `dtype=`) is given by specification in the templates."""
 import ast
 import os
 from fractions import Fraction
@@ -43,7 +49,8 @@ def const(v):
     raise Unsupported("constant %r" % (v,))
 
 
-BIN = {ast.Add: "Add", ast.Sub: "Sub", ast.Mult: "Mul", ast.Div: "Div", ast.FloorDiv: "FloorDiv", ast.Mod: "Mod"}
+BIN = {ast.Add: "Add", ast.Sub: "Sub", ast.Mult: "Mul", ast.Div: "Div", ast.FloorDiv: "FloorDiv", ast.Mod: "Mod",
+       ast.Pow: "Pow"}
 CMP = {ast.Lt: "CLt", ast.LtE: "CLe", ast.Gt: "CGt", ast.GtE: "CGe", ast.Eq: "CEq", ast.NotEq: "CNe"}
 
 
@@ -68,6 +75,7 @@ def is_int_const(node):
 
 
 TYPE_NAMES = ("bool", "int", "float")
+DTYPE_CONSTS = ("np.float32", "np.float64", "np.int32", "np.int64")    # module attributes admitted as opaque constants
 FUNC_NAMES = ("sum", "len", "abs", "min", "max")
 
 
@@ -88,8 +96,16 @@ class Translator:
     def call(self, e):
         f = e.func
         pos = list(e.args)
-        if any(isinstance(a, ast.Starred) for a in pos) or any(k.arg is None for k in e.keywords):
-            raise Unsupported("* / ** in call")
+        if any(k.arg is None for k in e.keywords):
+            raise Unsupported("** in call")
+        if any(isinstance(a, ast.Starred) for a in pos):
+            # f(a, b, *seq): one starred argument, in the last position, no keywords, f a plain or module function
+            if e.keywords or any(isinstance(a, ast.Starred) for a in pos[:-1]):
+                raise Unsupported("* in call (only f(args, *seq) is in the fragment)")
+            name = f.id if isinstance(f, ast.Name) and f.id != "isinstance" else self.dotted(f)
+            if name is None or (isinstance(f, ast.Name) and f.id in self.modules):
+                raise Unsupported("* in a method call")
+            return "(ECallStar %s %s %s)" % (cstr(name), lst([self.expr(a) for a in pos[:-1]]), self.expr(pos[-1].value))
         if (isinstance(f, ast.Name) and f.id in ("all", "any", "tuple", "list") and len(pos) == 1
                 and not e.keywords and isinstance(pos[0], ast.GeneratorExp)):
             g = pos[0]
@@ -190,6 +206,8 @@ class Translator:
         if isinstance(e, ast.Call):
             return self.call(e)
         if isinstance(e, ast.Attribute):
+            if self.dotted(e) in DTYPE_CONSTS:
+                return "(EConst (VS %s))" % cstr("<%s>" % self.dotted(e))
             if self.dotted(e) is not None:
                 raise Unsupported("module attribute " + self.dotted(e))
             return "(ECall %s %s)" % (cstr("attr:" + e.attr), lst([expr(e.value)]))
@@ -259,7 +277,13 @@ class Translator:
                             raise Unsupported("slice assignment form")
                         out.append("SSetSlice %s %s %s" % (cstr(t.value.id), cZ(int_const(sl.upper)), self.expr(s.value)))
                     elif isinstance(t.slice, ast.Tuple):
-                        raise Unsupported("multi-dimensional assignment")
+                        # x[:, i] = e
+                        el = t.slice.elts
+                        if not (len(el) == 2 and isinstance(el[0], ast.Slice) and el[0].lower is None
+                                and el[0].upper is None and el[0].step is None
+                                and not isinstance(el[1], (ast.Slice, ast.Tuple, ast.Starred))):
+                            raise Unsupported("multi-dimensional assignment")
+                        out.append("SSetCol %s %s %s" % (cstr(t.value.id), self.expr(el[1]), self.expr(s.value)))
                     else:
                         out.append("SSetItem %s %s %s" % (cstr(t.value.id), self.expr(t.slice), self.expr(s.value)))
                 else:
@@ -281,8 +305,11 @@ class Translator:
             elif isinstance(s, ast.For):
                 if s.orelse:
                     raise Unsupported("for ... else")
-                out.append("SFor %s %s %s" % (lst([cstr(n) for n in target_names(s.target)]), self.expr(s.iter),
-                                              self.stmts(s.body)))
+                names, unpack = loop_targets(s.target)
+                body_ = self.stmts(s.body)
+                if unpack:
+                    body_ = "(" + " :: ".join(unpack) + " :: " + body_ + ")"
+                out.append("SFor %s %s %s" % (lst([cstr(n) for n in names]), self.expr(s.iter), body_))
             elif isinstance(s, ast.Raise):
                 out.append("SRaise")
             elif isinstance(s, ast.Return):
@@ -308,6 +335,33 @@ def target_names(t):
     raise Unsupported("assignment target " + ast.dump(t)[:100])
 
 
+def loop_targets(t):
+    """for-loop target -> (names bound by the loop, unpacking statements put in front of the body).
+    One level of nesting: `for a, (b, c) in it` binds a and a temporary %k, and the body starts with
+    `b, c = %k` (% cannot occur in a Python identifier, so the temporary is fresh)."""
+    if isinstance(t, ast.Name) or all(isinstance(x, ast.Name) for x in t.elts):
+        return target_names(t), []
+    names, unpack = [], []
+    if not isinstance(t, (ast.Tuple, ast.List)):
+        raise Unsupported("loop target " + ast.dump(t)[:100])
+    for k, x in enumerate(t.elts):
+        if isinstance(x, ast.Name):
+            names.append(x.id)
+        else:
+            tmp = "%%%d" % (k + 1)
+            names.append(tmp)
+            unpack.append("SAssign %s (EVar %s)" % (lst([cstr(n) for n in target_names(x)]), cstr(tmp)))
+    return names, unpack
+
+
+def all_target_names(t):
+    if isinstance(t, ast.Name):
+        return [t.id]
+    if isinstance(t, (ast.Tuple, ast.List)):
+        return [n for x in t.elts for n in all_target_names(x)]
+    raise Unsupported("loop target " + ast.dump(t)[:100])
+
+
 # ---------------------------------------------------------------------------------------------------
 # Freshness: PyLite models mutation by rebinding the mutated variable.  We admit a mutation of x only
 # where x certainly holds an object created in this function that no other name / container / callee
@@ -318,6 +372,7 @@ def target_names(t):
 # a name that occurs in the loop's iterable.
 FRESH_LIST_CALLS = {"list"}
 FRESH_ARRAY_CALLS = {"np.array"}
+FRESH_ARRAY_CALLS_KW = {"np.zeros", "np.empty"}     # fresh also when called with keywords (dtype=)
 
 
 class Fresh:
@@ -329,6 +384,8 @@ class Fresh:
             return "list"
         if isinstance(e, ast.Constant) and e.value is None:
             return "none"        # not an object that can be mutated; joins with a fresh list / array
+        if isinstance(e, ast.Call) and self.tr.dotted(e.func) in FRESH_ARRAY_CALLS_KW:
+            return "array"
         if isinstance(e, ast.Call) and not e.keywords:
             if isinstance(e.func, ast.Name) and e.func.id in FRESH_LIST_CALLS:
                 return "list"
@@ -405,7 +462,11 @@ class Fresh:
                     self.drop(state, esc)
                     self.need(state, s.target.value.id, ("list", "array"), frozen, "item update")
                 else:
+                    # x op= e: a new object for numbers; in place for a list / array, which stays fresh if it was
+                    keep = state.get(s.target.id) if s.target.id not in esc else None
                     self.drop(state, esc | {s.target.id})
+                    if keep in ("list", "array") and s.target.id not in frozen:
+                        state[s.target.id] = keep
             elif isinstance(s, ast.If):
                 self.escaping(s.test, esc)
                 self.drop(state, esc)
@@ -417,11 +478,11 @@ class Fresh:
                 state.update(self.join(a, b))
             elif isinstance(s, ast.For):
                 self.escaping(s.iter, esc)
-                self.drop(state, esc | set(target_names(s.target)))
+                self.drop(state, esc | set(all_target_names(s.target)))
                 inner_frozen = frozen | {n.id for n in ast.walk(s.iter) if isinstance(n, ast.Name)}
                 while True:
                     a = dict(state)
-                    self.drop(a, target_names(s.target))
+                    self.drop(a, all_target_names(s.target))
                     self.block(s.body, a, inner_frozen)
                     joined = self.join(state, a)
                     if joined == state:
